@@ -7,7 +7,7 @@ func init() {
 				"horizontal zoom h case-split over 0..35; x, y in [0,2^h); vertical zoom 0..35, |f|,|dv| < 2^61, |dx|,|dy| <= 4*2^h all symbolic; the wrap loop is unwound 8 times with an unwinding check",
 				"composition law with |a|,|b| <= 2*2^h per horizontal axis",
 			},
-			Outside: []string{"horizontal shifts of more than four world-widths (the library's wrap loop is linear in dx/2^h)", "vertical indices beyond 2^61"},
+			Outside:     []string{"horizontal shifts of more than four world-widths (the library's wrap loop is linear in dx/2^h)", "vertical indices beyond 2^61"},
 			Assumptions: []string{"math.Pow(2,k) exact and math.Mod exact on integer-valued doubles below 2^53 (checked at start-up against math.Ldexp / literals)"},
 		},
 		insts: func(tier string) []*Instance {
